@@ -187,6 +187,12 @@ func (s *TunnelServiceHandler) openReverseTunnel(stream tunnelpb.TunnelService_O
 	}
 
 	<-ch.Done()
+	if err := stream.Context().Err(); err != nil {
+		// The channel's context ended because the tunnel stream's context
+		// did (peer hung up abruptly, transport failure). Record that cause
+		// before the deferred Close below records a clean shutdown.
+		ch.close(err)
+	}
 	return ch.Err()
 }
 
